@@ -234,6 +234,11 @@ func calcOutflow(timestep int, inflow, lateral, bias, prevQi, prevOutflow, prevS
 	if math.Abs(delta) > massBalanceLimit {
 		// fmt.Printf("Timestep = %d, delta=%f, outflow=%f, storage=%f\n", timestep, delta, outflow, storage)
 	}
+	if outflow <= 0.0 {
+		// the search stopped at an index flow whose index storage exceeds the water available (steep S(Q) near zero
+		// flow): nothing flows out, and the reach holds what the water balance leaves, as in the zero outflow case above
+		storage = math.Min(storage, math.Max(prevStorage+(inflow+lateral-math.Min(initialFluxMax, area*netEvapRate))*duration, 0.0))
+	}
 	if math.IsNaN(outflow){
 		fmt.Printf("outflow=%f\n",outflow)
 		fmt.Printf("storage=%f\n",storage)
